@@ -1294,6 +1294,16 @@ func (c Clause) ReplaceWildcards() Clause {
 	if !vars[Variable{"_"}] { // If no wildcards
 		return c
 	}
+	// Variables of the transform are in use as well, a fresh variable must
+	// not clash with them.
+	for t := c.Transform; t != nil; t = t.Next {
+		for _, stmt := range t.Statements {
+			if stmt.Var != nil {
+				vars[*stmt.Var] = true
+			}
+			AddVars(stmt.Fn, vars)
+		}
+	}
 	newPremises := make([]Term, len(c.Premises))
 	for i, p := range c.Premises {
 		newPremises[i] = ReplaceWildcards(vars, p)
